@@ -179,6 +179,8 @@ R14.6 each method once, parameters/results in order, type parameters index for i
 	ruleQualifiedTypes(c, r, "R14.4")
 	ruleAddImport(c, r, "R14.4")
 	goR015(c, r, "R14.4")
+	// every component of a type the offered strings mention is walked for its package (C01 rule R01.1)
+	subRules(c, "R14.4", "type-walk", "a type string can only be resolved in the output if every package it mentions was registered: ", func(sub *Ctx) { goR011(sub, r) })
 	ruleNameResolution(c, r, "R14.5")
 	// R14.6
 	sub := newCtx("C14", c.Tier)
